@@ -6,5 +6,5 @@ WT=/tmp/wt-rev
 git -C $WT checkout -q --detach $(git -C /repo rev-parse HEAD) 2>/dev/null
 git -C $WT reset -q --hard $(git -C /repo rev-parse HEAD)
 git -C $WT revert -n $C >/dev/null 2>&1 || { echo "REVERT-CONFLICT $C"; git -C $WT revert --abort 2>/dev/null; git -C $WT reset -q --hard; exit 3; }
-VERIF_REPO=$WT VERIF_BUILD=/tmp/vb-rev VERIF_SCALE=$S timeout 900 python3 /verif/vcheck.py $P 2>&1 | grep -E "failing class|VIOLATION|property=|BUILD-FAILED" | head -6
+VERIF_EVIDENCE=/tmp/vb-rev/evidence VERIF_REPO=$WT VERIF_BUILD=/tmp/vb-rev VERIF_SCALE=$S timeout 900 python3 /verif/vcheck.py $P 2>&1 | grep -E "failing class|VIOLATION|property=|BUILD-FAILED" | head -6
 git -C $WT reset -q --hard
